@@ -50,7 +50,9 @@ vars == <<lock, clock, log, pc, loc, got, left, holds, snap, stored, sched>>
 core == <<lock, clock, log, pc, loc, got, left, holds, snap, stored>>
 
 Err(r) == Kind[r] = "err"
-AfterLock(r) == IF Err(r) THEN "unlock" ELSE "read"       \* a request with a bad body fails right after taking the lock
+\* a request with a bad body fails right after taking the lock; GET /save-state externalises and releases (it does not step)
+AfterLock(r) == IF Err(r) THEN "unlock" ELSE IF Kind[r] = "save" THEN "snap" ELSE "read"
+NoLockSave == "D19e_save_state_no_lock" \in Dev
 CheckThenLock == "D14b_check_then_lock" \in Dev
 Locks(r) == Kind[r] # "step" \/ "D14b_step_nolock" \notin Dev
 
@@ -67,8 +69,11 @@ DidT(r, tag) == sched' = Append(sched, <<r, tag>>)
 Did(r) == DidT(r, "x")
 
 \* intended: atomic test-and-set
-TryLock(r) == /\ pc[r] = "try" /\ Kind[r] # "save"
-              /\ IF lock THEN pc' = [pc EXCEPT ![r] = "refused"] /\ UNCHANGED <<lock, holds>>
+\* (GET /save-state on a server with a store: it takes the lock of the session too, so that its copy cannot land in the store
+\* after a newer one; a session that is being stepped is left to the request that steps it, which externalises it when it ends -
+\* its state is only looked at, for the response)
+TryLock(r) == /\ pc[r] = "try" /\ (Kind[r] = "save" => Store /\ ~NoLockSave)
+              /\ IF lock THEN pc' = [pc EXCEPT ![r] = IF Kind[r] = "save" THEN "look" ELSE "refused"] /\ UNCHANGED <<lock, holds>>
                          ELSE lock' = TRUE /\ holds' = [holds EXCEPT ![r] = TRUE] /\ pc' = [pc EXCEPT ![r] = AfterLock(r)]
               /\ UNCHANGED <<clock, log, loc, got, left, snap, stored>> /\ Did(r)
 \* a bad body detected before the lock is touched: the request ends without any effect
@@ -76,11 +81,13 @@ Early(r) == /\ Err(r) /\ pc[r] \in {"try", "check"}
             /\ pc' = [pc EXCEPT ![r] = "done"]
             /\ UNCHANGED <<lock, clock, log, loc, got, left, holds, snap, stored>> /\ DidT(r, "-")
 \* GET /save-state arriving while stepping requests are in progress: it externalises every instance and touches neither the
-\* lock nor the clock of the live session (copy and write taken as one step)
-SaveReq(r) == /\ Kind[r] = "save" /\ pc[r] \in {"try", "check"}
-              /\ pc' = [pc EXCEPT ![r] = "done"]
-              /\ stored' = IF Store THEN clock ELSE stored
-              /\ UNCHANGED <<lock, clock, log, loc, got, left, holds, snap>> /\ Did(r)
+\* lock nor the clock of the live session.  Without a store it does nothing at all; deviation D19e: with a store it copies and
+\* writes without taking the lock
+SaveReq(r) == /\ Kind[r] = "save" /\ pc[r] \in {"try", "check"} /\ (~Store \/ NoLockSave)
+              /\ pc' = [pc EXCEPT ![r] = IF Store THEN "snap" ELSE "done"]
+              /\ UNCHANGED <<lock, clock, log, loc, got, left, holds, snap, stored>> /\ DidT(r, IF Store THEN "-" ELSE "x")
+Look(r) == /\ pc[r] = "look" /\ snap' = [snap EXCEPT ![r] = clock] /\ pc' = [pc EXCEPT ![r] = "done"]
+           /\ UNCHANGED <<lock, clock, log, loc, got, left, holds, stored>> /\ Did(r)
 \* deviation: check now, lock later (or never, for run-step)
 Check(r) == /\ pc[r] = "check" /\ Kind[r] # "save"
             /\ pc' = [pc EXCEPT ![r] = IF lock THEN "refused" ELSE IF Locks(r) THEN "take" ELSE "read"]
@@ -95,7 +102,7 @@ AfterLoop(r) == IF holds[r] THEN "unlock" ELSE "done"
 \* Externalising the session: intended - while the request still holds the lock, so that the store never receives an older
 \* session after a newer one.  Deviation D19c: the multi-step requests release the lock first and externalise afterwards.
 \* (D19d: run-step does the same)
-SaveLate(r) == IF Kind[r] = "step" THEN "D19d_step_save_after_unlock" \in Dev ELSE "D19c_save_after_unlock" \in Dev
+SaveLate(r) == IF Kind[r] = "save" THEN FALSE ELSE IF Kind[r] = "step" THEN "D19d_step_save_after_unlock" \in Dev ELSE "D19c_save_after_unlock" \in Dev
 End(r) == IF Kind[r] = "stream" /\ ~Aborted(r) THEN "close" ELSE "done"
 AfterSteps(r) == IF Store /\ ~SaveLate(r) THEN "snap" ELSE AfterLoop(r)
 \* top of an iteration: loop condition, then run_step reads the clock
@@ -131,7 +138,7 @@ Close(r) == /\ pc[r] = "close"
             /\ pc' = [pc EXCEPT ![r] = "done"]
             /\ UNCHANGED <<clock, log, loc, got, left, holds, snap, stored>> /\ Did(r)
 
-Step(r) == TryLock(r) \/ SaveReq(r) \/ Early(r) \/ Check(r) \/ Take(r) \/ Read(r) \/ Write(r) \/ Snap(r) \/ Put(r) \/ Unlock(r) \/ Close(r)
+Step(r) == TryLock(r) \/ SaveReq(r) \/ Look(r) \/ Early(r) \/ Check(r) \/ Take(r) \/ Read(r) \/ Write(r) \/ Snap(r) \/ Put(r) \/ Unlock(r) \/ Close(r)
 Next == \E r \in Reqs : Step(r)
 Spec == Init /\ [][Next]_vars
 
